@@ -1,15 +1,18 @@
 """C18 — supervisor; see DESIGN.md section 6.  Proof: props/C18.v.  Tie: trace acceptance (check B)."""
 from . import supcommon as S
+from . import c18_composite as LC
 
-OCAML = S.OCAML
-GO = S.GO
+OCAML = S.OCAML + LC.OCAML
+GO = S.GO + LC.GO
 FAMILIES = "mixed,reload,state,sdsender,big,subclose,errs".split(",")
 PROP = "props/C18.v"
-PROOFS = ["proofs/SupInv.v", "proofs/SupStop.v", "proofs/SupTrig.v", "proofs/SupGate.v", "proofs/SupOnce.v", "proofs/SupReload.v", "proofs/SupCensus.v"]
+PROOFS = ["proofs/SupInv.v", "proofs/SupStop.v", "proofs/SupTrig.v", "proofs/SupGate.v", "proofs/SupOnce.v", "proofs/SupReload.v", "proofs/SupCensus.v"] + [f for f in LC.PROOFS]
 
 
 def run(run):
     S.run_property(run, "C18", FAMILIES, PROP, PROOFS)
+    # further legs: each compares the real goroutine census of one component with its model's census
+    LC.leg(run)
 
 
 def replay(path):
